@@ -42,6 +42,10 @@ def ExactSync (remote : PortId) (asym : Int) (meanDelay : Option Int) (H : List 
     m.rawSync = some raw ∧ m.eventTime = y ∧ m.rawDelay = none ∧ m.delay = none ∧ m.peerDelay = none ∧
     (match meanDelay with | some md => durSub raw md = m.offset | none => m.offset = none)
 
+theorem syncProv_measuring (remote : PortId) (H : List SEv) (id : Nat) (send recv : Option Nat) :
+    SyncProv remote H (.measuring id send recv) ↔
+      ((∀ x, send = some x → SendFrom remote id H x) ∧ (∀ y, recv = some y → RecvFrom remote id H y)) := Iff.rfl
+
 theorem sendFrom_mono {remote id H x} (e : SEv) (h : SendFrom remote id H x) : SendFrom remote id (e :: H) x := by
   rcases h with ⟨h1, o, hm, r⟩ | ⟨h1, o, ts, hm, r⟩
   · exact Or.inl ⟨h1, o, List.mem_cons_of_mem _ hm, r⟩
@@ -114,6 +118,90 @@ theorem measure_after_sync_update (p p' : Port) (remote : PortId) (sy : SyncSt) 
           simp only [List.nil_append, List.mem_singleton] at ho
           exact ⟨_, ho⟩
 
+theorem orOv_ok {α β : Type} (x : Option α) (f : α → R β) (r : β) (h : orOv x f = .ok r) :
+    ∃ a, x = some a ∧ f a = .ok r := by
+  cases x with
+  | none => simp [orOv] at h
+  | some a => exact ⟨a, rfl, h⟩
+
+theorem peerIdle_withSlave (p : Port) (remote : PortId) (sy : SyncSt) (dl : DelaySt) (last : Option Int)
+    (hp : PeerIdle p) : PeerIdle (p.withSlave remote sy dl last) := hp
+
+/-- storing the Sync (sender already checked, receive time already corrected) -/
+theorem syncStore_exact (p p' : Port) (remote : PortId) (sy : SyncSt) (dl : DelaySt) (last : Option Int)
+    (h : Header) (o : WireTs) (ts corrected : Nat) (outs : List Out) (H : List SEv)
+    (hp : PeerIdle p) (hd : dl.incomplete) (hprov : SyncProv remote H sy) (hst : p.st = .slave remote sy dl last)
+    (hsrc : h.src = remote) (hc : Spec.syncRecv h.correction ts = some corrected)
+    (hr : p.syncStore remote sy dl last h o corrected = .ok (p', outs)) :
+    ∃ sy' last', p'.st = .slave remote sy' dl last' ∧ SyncProv remote (.sync h o ts :: H) sy' ∧
+      p'.peer = p.peer ∧ p'.cfg = p.cfg ∧
+      ∀ m, Out.measurement m ∈ outs → ExactSync remote p.cfg.delayAsymmetry p.meanDelay (.sync h o ts :: H) m := by
+  have hmono := syncProv_mono (SEv.sync h o ts) sy hprov
+  have hrecv : RecvFrom remote h.seq (.sync h o ts :: H) corrected := ⟨h, o, ts, List.mem_cons_self, hsrc, rfl, hc⟩
+  have finish : ∀ (sy1 : SyncSt), SyncProv remote (.sync h o ts :: H) sy1 →
+      (p.withSlave remote sy1 dl last).timeMeasurement = .ok (p', outs) →
+      ∃ sy' last', p'.st = .slave remote sy' dl last' ∧ SyncProv remote (.sync h o ts :: H) sy' ∧
+        p'.peer = p.peer ∧ p'.cfg = p.cfg ∧
+        ∀ m, Out.measurement m ∈ outs → ExactSync remote p.cfg.delayAsymmetry p.meanDelay (.sync h o ts :: H) m := by
+    intro sy1 hp1 hm
+    obtain ⟨sy', last', a, b, c, d, e, _⟩ := measure_after_sync_update (p.withSlave remote sy1 dl last) p' remote sy1 dl last
+      outs _ rfl (peerIdle_withSlave p remote sy1 dl last hp) hd hp1 hm
+    exact ⟨sy', last', a, b, c, d, e⟩
+  have stay : (p', outs) = (p, []) → ∃ sy' last', p'.st = .slave remote sy' dl last' ∧ SyncProv remote (.sync h o ts :: H) sy' ∧
+        p'.peer = p.peer ∧ p'.cfg = p.cfg ∧
+        ∀ m, Out.measurement m ∈ outs → ExactSync remote p.cfg.delayAsymmetry p.meanDelay (.sync h o ts :: H) m := by
+    intro e
+    simp only [Prod.mk.injEq] at e
+    obtain ⟨rfl, rfl⟩ := e
+    exact ⟨sy, last, hst, hmono, rfl, rfl, by simp⟩
+  have store : ∀ sy1, SyncProv remote (.sync h o ts :: H) sy1 → (p', outs) = (p.withSlave remote sy1 dl last, []) →
+      ∃ sy' last', p'.st = .slave remote sy' dl last' ∧ SyncProv remote (.sync h o ts :: H) sy' ∧
+        p'.peer = p.peer ∧ p'.cfg = p.cfg ∧
+        ∀ m, Out.measurement m ∈ outs → ExactSync remote p.cfg.delayAsymmetry p.meanDelay (.sync h o ts :: H) m := by
+    intro sy1 hp1 e
+    simp only [Prod.mk.injEq] at e
+    obtain ⟨rfl, rfl⟩ := e
+    exact ⟨sy1, last, rfl, hp1, rfl, rfl, by simp⟩
+  have newRecv : SyncProv remote (.sync h o ts :: H) (.measuring h.seq none (some corrected)) :=
+    (syncProv_measuring _ _ _ _ _).2 ⟨(by intro x hx; cases hx), (by intro y hy; cases hy; exact hrecv)⟩
+  unfold Port.syncStore at hr
+  by_cases h2 : h.flags.twoStep = true
+  · rw [if_pos h2] at hr
+    cases sy with
+    | empty => exact store _ newRecv (Except.ok.inj hr).symm
+    | measuring id send recv =>
+      simp only at hr
+      by_cases hid : id = h.seq
+      · rw [if_pos hid] at hr
+        subst hid
+        cases recv with
+        | some _ => exact stay (Except.ok.inj hr).symm
+        | none =>
+          exact finish _ ((syncProv_measuring _ _ _ _ _).2 ⟨fun x hx => hmono.1 x hx, (by intro y hy; cases hy; exact hrecv)⟩) hr
+      · rw [if_neg hid] at hr
+        exact store _ newRecv (Except.ok.inj hr).symm
+  · rw [if_neg h2] at hr
+    have h2' : h.flags.twoStep = false := by cases hb : h.flags.twoStep <;> simp_all
+    have one : ∀ (hr' : (orOv (wireToTime o) fun send =>
+          (p.withSlave remote (.measuring h.seq (some send) (some corrected)) dl last).timeMeasurement) = .ok (p', outs)),
+        ∃ sy' last', p'.st = .slave remote sy' dl last' ∧ SyncProv remote (.sync h o ts :: H) sy' ∧
+          p'.peer = p.peer ∧ p'.cfg = p.cfg ∧
+          ∀ m, Out.measurement m ∈ outs → ExactSync remote p.cfg.delayAsymmetry p.meanDelay (.sync h o ts :: H) m := by
+      intro hr'
+      obtain ⟨send, hw, hm⟩ := orOv_ok _ _ _ hr'
+      have hsend : SendFrom remote h.seq (.sync h o ts :: H) send :=
+        Or.inr ⟨h, o, ts, List.mem_cons_self, hsrc, rfl, h2', hw⟩
+      exact finish _ ((syncProv_measuring _ _ _ _ _).2 ⟨(by intro x hx; cases hx; exact hsend), (by intro y hy; cases hy; exact hrecv)⟩) hm
+    cases sy with
+    | empty => exact one hr
+    | measuring id send recv =>
+      simp only at hr
+      by_cases hid : id = h.seq
+      · rw [if_pos hid] at hr
+        exact stay (Except.ok.inj hr).symm
+      · rw [if_neg hid] at hr
+        exact one hr
+
 /-- **Sync side, one step.** Handling a Sync on a slave port keeps the provenance invariant and any
 measurement it hands to the filter is the exact formula of one Sync (+ Follow_Up) exchange of the
 parent with equal sequence ids. -/
@@ -124,7 +212,6 @@ theorem handleSync_exact (p p' : Port) (remote : PortId) (sy : SyncSt) (dl : Del
     ∃ sy' last', p'.st = .slave remote sy' dl last' ∧ SyncProv remote (.sync h o ts :: H) sy' ∧
       p'.peer = p.peer ∧ p'.cfg = p.cfg ∧
       ∀ m, Out.measurement m ∈ outs → ExactSync remote p.cfg.delayAsymmetry p.meanDelay (.sync h o ts :: H) m := by
-  have hmono := syncProv_mono (SEv.sync h o ts) sy hprov
   unfold Port.handleSync at hr
   rw [hst] at hr
   simp only at hr
@@ -132,65 +219,50 @@ theorem handleSync_exact (p p' : Port) (remote : PortId) (sy : SyncSt) (dl : Del
   · rw [if_pos hsrc] at hr
     simp only [Except.ok.injEq, Prod.mk.injEq] at hr
     obtain ⟨rfl, rfl⟩ := hr
-    exact ⟨sy, last, hst, hmono, rfl, rfl, by simp⟩
+    exact ⟨sy, last, hst, syncProv_mono _ sy hprov, rfl, rfl, by simp⟩
   · rw [if_neg hsrc] at hr
-    have hsrc' : h.src = remote := by
-      have : ¬ ¬ remote = h.src := hsrc
-      exact (Classical.not_not.1 this).symm
-    simp only [bind, Except.bind] at hr
-    cases hc : timeSubDur ts (tivToDur h.correction) with
-    | none => simp [hc, liftOv] at hr
-    | some corrected =>
-      simp only [hc, liftOv] at hr
-      have hrecv : RecvFrom remote h.seq (.sync h o ts :: H) corrected :=
-        ⟨h, o, ts, List.mem_cons_self, hsrc', rfl, hc⟩
-      -- the state after a store, and what follows from `measure_after_sync_update`
-      have finish : ∀ (sy1 : SyncSt), SyncProv remote (.sync h o ts :: H) sy1 →
-          ({ p with st := .slave remote sy1 dl last } : Port).timeMeasurement = .ok (p', outs) →
-          ∃ sy' last', p'.st = .slave remote sy' dl last' ∧ SyncProv remote (.sync h o ts :: H) sy' ∧
-            p'.peer = p.peer ∧ p'.cfg = p.cfg ∧
-            ∀ m, Out.measurement m ∈ outs → ExactSync remote p.cfg.delayAsymmetry p.meanDelay (.sync h o ts :: H) m := by
-        intro sy1 hp1 hm
-        obtain ⟨sy', last', a, b, c, d, e, _⟩ := measure_after_sync_update _ p' remote sy1 dl last outs _ rfl
-          (by intro i r a b c d; exact hp i r a b c d) hd hp1 hm
-        exact ⟨sy', last', a, b, c, d, e⟩
-      by_cases h2 : h.flags.twoStep = true
-      · simp only [h2, if_true] at hr
-        cases sy with
-        | empty =>
-          simp only [Except.ok.injEq, Prod.mk.injEq] at hr
-          obtain ⟨rfl, rfl⟩ := hr
-          exact ⟨_, last, rfl, ⟨by intro x hx; cases hx, by intro y hy; cases hy; exact hrecv⟩, rfl, rfl, by simp⟩
-        | measuring id send recv =>
-          simp only at hr
-          by_cases hid : id = h.seq
-          · rw [if_pos hid] at hr
-            subst hid
-            cases recv with
-            | some _ =>
-              simp only [Except.ok.injEq, Prod.mk.injEq] at hr
-              obtain ⟨rfl, rfl⟩ := hr
-              exact ⟨_, last, hst, hmono, rfl, rfl, by simp⟩
-            | none =>
-              simp only at hr
-              exact finish _ ⟨fun x hx => hmono.1 x hx, by intro y hy; cases hy; exact hrecv⟩ hr
-          · rw [if_neg hid] at hr
-            simp only [Except.ok.injEq, Prod.mk.injEq] at hr
-            obtain ⟨rfl, rfl⟩ := hr
-            exact ⟨_, last, rfl, ⟨by intro x hx; cases hx, by intro y hy; cases hy; exact hrecv⟩, rfl, rfl, by simp⟩
-      · have h2' : h.flags.twoStep = false := by cases hb : h.flags.twoStep <;> simp_all
-        simp only [h2', Bool.false_eq_true, if_false] at hr
-        split at hr
-        · simp only [Except.ok.injEq, Prod.mk.injEq] at hr
-          obtain ⟨rfl, rfl⟩ := hr
-          exact ⟨sy, last, hst, hmono, rfl, rfl, by simp⟩
-        · cases hw : wireToTime o with
-          | none => simp [hw] at hr
-          | some send =>
-            simp only [hw] at hr
-            have hsend : SendFrom remote h.seq (.sync h o ts :: H) send :=
-              Or.inr ⟨h, o, ts, List.mem_cons_self, hsrc', rfl, h2', hw⟩
-            exact finish _ ⟨by intro x hx; cases hx; exact hsend, by intro y hy; cases hy; exact hrecv⟩ hr
+    have hsrc' : h.src = remote := (Classical.not_not.1 hsrc).symm
+    obtain ⟨corrected, hc, hs⟩ := orOv_ok _ _ _ hr
+    exact syncStore_exact p p' remote sy dl last h o ts corrected outs H hp hd hprov hst hsrc' hc hs
+
+theorem followUpStore_exact (p p' : Port) (remote : PortId) (sy : SyncSt) (dl : DelaySt) (last : Option Int)
+    (h : Header) (o : WireTs) (send : Nat) (outs : List Out) (H : List SEv)
+    (hp : PeerIdle p) (hd : dl.incomplete) (hprov : SyncProv remote H sy) (hst : p.st = .slave remote sy dl last)
+    (hsrc : h.src = remote) (hc : Spec.followUpSend h.correction o = some send)
+    (hr : p.followUpStore remote sy dl last h send = .ok (p', outs)) :
+    ∃ sy' last', p'.st = .slave remote sy' dl last' ∧ SyncProv remote (.followUp h o :: H) sy' ∧
+      p'.peer = p.peer ∧ p'.cfg = p.cfg ∧
+      ∀ m, Out.measurement m ∈ outs → ExactSync remote p.cfg.delayAsymmetry p.meanDelay (.followUp h o :: H) m := by
+  have hmono := syncProv_mono (SEv.followUp h o) sy hprov
+  have hsend : SendFrom remote h.seq (.followUp h o :: H) send := Or.inl ⟨h, o, List.mem_cons_self, hsrc, rfl, hc⟩
+  have finish : ∀ (sy1 : SyncSt), SyncProv remote (.followUp h o :: H) sy1 →
+      (p.withSlave remote sy1 dl last).timeMeasurement = .ok (p', outs) →
+      ∃ sy' last', p'.st = .slave remote sy' dl last' ∧ SyncProv remote (.followUp h o :: H) sy' ∧
+        p'.peer = p.peer ∧ p'.cfg = p.cfg ∧
+        ∀ m, Out.measurement m ∈ outs → ExactSync remote p.cfg.delayAsymmetry p.meanDelay (.followUp h o :: H) m := by
+    intro sy1 hp1 hm
+    obtain ⟨sy', last', a, b, c, d, e, _⟩ := measure_after_sync_update (p.withSlave remote sy1 dl last) p' remote sy1 dl last
+      outs _ rfl (peerIdle_withSlave p remote sy1 dl last hp) hd hp1 hm
+    exact ⟨sy', last', a, b, c, d, e⟩
+  have newSend : SyncProv remote (.followUp h o :: H) (.measuring h.seq (some send) none) :=
+    (syncProv_measuring _ _ _ _ _).2 ⟨(by intro x hx; cases hx; exact hsend), (by intro y hy; cases hy)⟩
+  unfold Port.followUpStore at hr
+  cases sy with
+  | empty => exact finish _ newSend hr
+  | measuring id s recv =>
+    simp only at hr
+    by_cases hid : id = h.seq
+    · rw [if_pos hid] at hr
+      subst hid
+      cases s with
+      | some _ =>
+        simp only [Except.ok.injEq, Prod.mk.injEq] at hr
+        obtain ⟨rfl, rfl⟩ := hr
+        exact ⟨_, last, hst, hmono, rfl, rfl, by simp⟩
+      | none =>
+        exact finish _ ((syncProv_measuring _ _ _ _ _).2 ⟨(by intro x hx; cases hx; exact hsend), fun y hy => hmono.2 y hy⟩) hr
+    · rw [if_neg hid] at hr
+      exact finish _ newSend hr
 
 /-- **Follow_Up side, one step.** -/
 theorem handleFollowUp_exact (p p' : Port) (remote : PortId) (sy : SyncSt) (dl : DelaySt) (last : Option Int)
@@ -200,7 +272,6 @@ theorem handleFollowUp_exact (p p' : Port) (remote : PortId) (sy : SyncSt) (dl :
     ∃ sy' last', p'.st = .slave remote sy' dl last' ∧ SyncProv remote (.followUp h o :: H) sy' ∧
       p'.peer = p.peer ∧ p'.cfg = p.cfg ∧
       ∀ m, Out.measurement m ∈ outs → ExactSync remote p.cfg.delayAsymmetry p.meanDelay (.followUp h o :: H) m := by
-  have hmono := syncProv_mono (SEv.followUp h o) sy hprov
   unfold Port.handleFollowUp at hr
   rw [hst] at hr
   simp only at hr
@@ -208,47 +279,13 @@ theorem handleFollowUp_exact (p p' : Port) (remote : PortId) (sy : SyncSt) (dl :
   · rw [if_pos hsrc] at hr
     simp only [Except.ok.injEq, Prod.mk.injEq] at hr
     obtain ⟨rfl, rfl⟩ := hr
-    exact ⟨sy, last, hst, hmono, rfl, rfl, by simp⟩
+    exact ⟨sy, last, hst, syncProv_mono _ sy hprov, rfl, rfl, by simp⟩
   · rw [if_neg hsrc] at hr
     have hsrc' : h.src = remote := (Classical.not_not.1 hsrc).symm
-    simp only [bind, Except.bind] at hr
-    cases hw : wireToTime o with
-    | none => simp [hw, liftOv] at hr
-    | some t0 =>
-      simp only [hw, liftOv] at hr
-      cases hc : timeAddDur t0 (tivToDur h.correction) with
-      | none => simp [hc] at hr
-      | some send =>
-        simp only [hc] at hr
-        have hsend : SendFrom remote h.seq (.followUp h o :: H) send :=
-          Or.inl ⟨h, o, List.mem_cons_self, hsrc', rfl, by simp [Spec.followUpSend, hw, hc]⟩
-        have finish : ∀ (sy1 : SyncSt), SyncProv remote (.followUp h o :: H) sy1 →
-            ({ p with st := .slave remote sy1 dl last } : Port).timeMeasurement = .ok (p', outs) →
-            ∃ sy' last', p'.st = .slave remote sy' dl last' ∧ SyncProv remote (.followUp h o :: H) sy' ∧
-              p'.peer = p.peer ∧ p'.cfg = p.cfg ∧
-              ∀ m, Out.measurement m ∈ outs → ExactSync remote p.cfg.delayAsymmetry p.meanDelay (.followUp h o :: H) m := by
-          intro sy1 hp1 hm
-          obtain ⟨sy', last', a, b, c, d, e, _⟩ := measure_after_sync_update _ p' remote sy1 dl last outs _ rfl
-            (by intro i r a b c d; exact hp i r a b c d) hd hp1 hm
-          exact ⟨sy', last', a, b, c, d, e⟩
-        cases sy with
-        | empty =>
-          exact finish _ ⟨by intro x hx; cases hx; exact hsend, by intro y hy; cases hy⟩ hr
-        | measuring id s recv =>
-          simp only at hr
-          by_cases hid : id = h.seq
-          · rw [if_pos hid] at hr
-            subst hid
-            cases s with
-            | some _ =>
-              simp only [Except.ok.injEq, Prod.mk.injEq] at hr
-              obtain ⟨rfl, rfl⟩ := hr
-              exact ⟨_, last, hst, hmono, rfl, rfl, by simp⟩
-            | none =>
-              simp only at hr
-              exact finish _ ⟨by intro x hx; cases hx; exact hsend, fun y hy => hmono.2 y hy⟩ hr
-          · rw [if_neg hid] at hr
-            exact finish _ ⟨by intro x hx; cases hx; exact hsend, by intro y hy; cases hy⟩ hr
+    obtain ⟨t0, hw, hr1⟩ := orOv_ok _ _ _ hr
+    obtain ⟨send, hc, hs⟩ := orOv_ok _ _ _ hr1
+    exact followUpStore_exact p p' remote sy dl last h o send outs H hp hd hprov hst hsrc'
+      (by unfold Spec.followUpSend; rw [hw, Option.bind_some, hc]) hs
 
 /-! ### the Delay_Req / Delay_Resp exchange -/
 
@@ -264,7 +301,13 @@ def ExactDelay (self remote : PortId) (asym : Int) (last : Option Int) (H : List
   ∃ id t3 t4 raw h rx, SEv.delayTs id t3 ∈ H ∧ SEv.delayResp h rx self ∈ H ∧ h.src = remote ∧ h.seq = id ∧
     Spec.delayRecv h.correction rx = some t4 ∧ Spec.rawDelay t3 t4 asym = some raw ∧
     m.rawDelay = some raw ∧ m.eventTime = t3 ∧ m.rawSync = none ∧ m.offset = none ∧ m.peerDelay = none ∧
-    (match last with | some rs => Spec.meanDelay rs raw = m.delay | none => m.delay = none)
+    (∀ rs, last = some rs → Spec.meanDelay rs raw = m.delay) ∧ (last = none → m.delay = none)
+
+theorem delayProv_measuring (self remote : PortId) (H : List SEv) (id : Nat) (send recv : Option Nat) :
+    DelayProv self remote H (.measuring id send recv) ↔
+      ((∀ x, send = some x → SEv.delayTs id x ∈ H) ∧
+       (∀ y, recv = some y → ∃ h rx, SEv.delayResp h rx self ∈ H ∧ h.src = remote ∧ h.seq = id ∧
+          Spec.delayRecv h.correction rx = some y)) := Iff.rfl
 
 theorem delayProv_mono {self remote H} (e : SEv) (s : DelaySt) (h : DelayProv self remote H s) :
     DelayProv self remote (e :: H) s := by
@@ -325,34 +368,31 @@ theorem handleDelayTs_exact (p p' : Port) (remote : PortId) (sy : SyncSt) (dl : 
     ∃ dl', p'.st = .slave remote sy dl' last ∧ DelayProv p.id remote (.delayTs tsId ts :: H) dl' ∧
       ∀ m, Out.measurement m ∈ outs → ExactDelay p.id remote p.cfg.delayAsymmetry last (.delayTs tsId ts :: H) m := by
   have hmono := delayProv_mono (SEv.delayTs tsId ts) dl hprov
+  have stay : (p', outs) = (p, []) → ∃ dl', p'.st = .slave remote sy dl' last ∧ DelayProv p.id remote (.delayTs tsId ts :: H) dl' ∧
+      ∀ m, Out.measurement m ∈ outs → ExactDelay p.id remote p.cfg.delayAsymmetry last (.delayTs tsId ts :: H) m := by
+    intro e
+    simp only [Prod.mk.injEq] at e
+    obtain ⟨rfl, rfl⟩ := e
+    exact ⟨_, hst, hmono, by simp⟩
   unfold Port.handleDelayTs at hr
   rw [hst] at hr
   cases dl with
-  | empty =>
-    simp only [Except.ok.injEq, Prod.mk.injEq] at hr
-    obtain ⟨rfl, rfl⟩ := hr
-    exact ⟨_, hst, hmono, by simp⟩
+  | empty => exact stay (Except.ok.inj hr).symm
   | measuring id send recv =>
     simp only at hr
     by_cases hid : id = tsId
     · rw [if_pos hid] at hr
       subst hid
       cases send with
-      | some _ =>
-        simp only [Except.ok.injEq, Prod.mk.injEq] at hr
-        obtain ⟨rfl, rfl⟩ := hr
-        exact ⟨_, hst, hmono, by simp⟩
+      | some _ => exact stay (Except.ok.inj hr).symm
       | none =>
-        simp only at hr
         obtain ⟨dl', a, b, _, _, _, e⟩ := measure_after_delay_update
-          ({ p with st := .slave remote sy (.measuring id (some ts) recv) last }) p' remote sy _ last outs
-          (.delayTs id ts :: H) rfl (by intro i r a b c d; exact hp i r a b c d) hs
-          ⟨by intro x hx; cases hx; exact List.mem_cons_self, fun y hy => hmono.2 y hy⟩ hr
+          (p.withSlave remote sy (.measuring id (some ts) recv) last) p' remote sy _ last outs
+          (.delayTs id ts :: H) rfl (peerIdle_withSlave p remote sy _ last hp) hs
+          ((delayProv_measuring _ _ _ _ _ _).2 ⟨(by intro x hx; cases hx; exact List.mem_cons_self), fun y hy => hmono.2 y hy⟩) hr
         exact ⟨dl', a, b, e⟩
     · rw [if_neg hid] at hr
-      simp only [Except.ok.injEq, Prod.mk.injEq] at hr
-      obtain ⟨rfl, rfl⟩ := hr
-      exact ⟨_, hst, hmono, by simp⟩
+      exact stay (Except.ok.inj hr).symm
 
 /-- **Delay side: Delay_Resp.** -/
 theorem handleDelayResp_exact (p p' : Port) (remote : PortId) (sy : SyncSt) (dl : DelaySt) (last : Option Int)
@@ -362,14 +402,19 @@ theorem handleDelayResp_exact (p p' : Port) (remote : PortId) (sy : SyncSt) (dl 
     ∃ dl', p'.st = .slave remote sy dl' last ∧ DelayProv p.id remote (.delayResp h rx req :: H) dl' ∧
       ∀ m, Out.measurement m ∈ outs → ExactDelay p.id remote p.cfg.delayAsymmetry last (.delayResp h rx req :: H) m := by
   have hmono := delayProv_mono (SEv.delayResp h rx req) dl hprov
+  have stay : (p', outs) = (p, []) → ∃ dl', p'.st = .slave remote sy dl' last ∧
+      DelayProv p.id remote (.delayResp h rx req :: H) dl' ∧
+      ∀ m, Out.measurement m ∈ outs → ExactDelay p.id remote p.cfg.delayAsymmetry last (.delayResp h rx req :: H) m := by
+    intro e
+    simp only [Prod.mk.injEq] at e
+    obtain ⟨rfl, rfl⟩ := e
+    exact ⟨_, hst, hmono, by simp⟩
   unfold Port.handleDelayResp at hr
   rw [hst] at hr
   simp only at hr
   by_cases hsrc : p.id ≠ req ∨ remote ≠ h.src
   · rw [if_pos hsrc] at hr
-    simp only [Except.ok.injEq, Prod.mk.injEq] at hr
-    obtain ⟨rfl, rfl⟩ := hr
-    exact ⟨_, hst, hmono, by simp⟩
+    exact stay (Except.ok.inj hr).symm
   · rw [if_neg hsrc] at hr
     have hreq : req = p.id := by
       by_cases e : p.id = req
@@ -380,57 +425,43 @@ theorem handleDelayResp_exact (p p' : Port) (remote : PortId) (sy : SyncSt) (dl 
       · exact e.symm
       · exact absurd (Or.inr e) hsrc
     cases dl with
-    | empty =>
-      simp only [Except.ok.injEq, Prod.mk.injEq] at hr
-      obtain ⟨rfl, rfl⟩ := hr
-      exact ⟨_, hst, hmono, by simp⟩
+    | empty => exact stay (Except.ok.inj hr).symm
     | measuring id send recv =>
       simp only at hr
       by_cases hid : id = h.seq
       · rw [if_pos hid] at hr
         subst hid
         cases recv with
-        | some _ =>
-          simp only [Except.ok.injEq, Prod.mk.injEq] at hr
-          obtain ⟨rfl, rfl⟩ := hr
-          exact ⟨_, hst, hmono, by simp⟩
+        | some _ => exact stay (Except.ok.inj hr).symm
         | none =>
-          simp only [bind, Except.bind] at hr
-          cases hw : wireToTime rx with
-          | none => simp [hw, liftOv] at hr
-          | some t0 =>
-            simp only [hw, liftOv] at hr
-            cases hc : timeSubDur t0 (tivToDur h.correction) with
-            | none => simp [hc] at hr
-            | some r =>
-              simp only [hc] at hr
-              obtain ⟨dl', a, b, _, _, _, e⟩ := measure_after_delay_update
-                ({ p with st := .slave remote sy (.measuring h.seq send (some r)) last }) p' remote sy _ last outs
-                (.delayResp h rx req :: H) rfl (by intro i r a b c d; exact hp i r a b c d) hs
-                ⟨fun x hx => hmono.1 x hx, by
-                  intro y hy; cases hy
-                  exact ⟨h, rx, by rw [← hreq]; exact List.mem_cons_self, hsrc', rfl, by simp [Spec.delayRecv, hw, hc]⟩⟩ hr
-              exact ⟨dl', a, b, e⟩
+          obtain ⟨t0, hw, hr1⟩ := orOv_ok _ _ _ hr
+          obtain ⟨r, hc, hm⟩ := orOv_ok _ _ _ hr1
+          obtain ⟨dl', a, b, _, _, _, e⟩ := measure_after_delay_update
+            (p.withSlave remote sy (.measuring h.seq send (some r)) last) p' remote sy _ last outs
+            (.delayResp h rx req :: H) rfl (peerIdle_withSlave p remote sy _ last hp) hs
+            ((delayProv_measuring _ _ _ _ _ _).2 ⟨fun x hx => hmono.1 x hx, (by
+              intro y hy; cases hy
+              exact ⟨h, rx, (by show SEv.delayResp h rx p.id ∈ _; rw [← hreq]; exact List.mem_cons_self), hsrc', rfl,
+                (by unfold Spec.delayRecv; rw [hw, Option.bind_some, hc])⟩)⟩) hm
+          exact ⟨dl', a, b, e⟩
       · rw [if_neg hid] at hr
-        simp only [Except.ok.injEq, Prod.mk.injEq] at hr
-        obtain ⟨rfl, rfl⟩ := hr
-        exact ⟨_, hst, hmono, by simp⟩
+        exact stay (Except.ok.inj hr).symm
 
 /-! ### Non-vacuity: one clean two-step exchange produces the formula value -/
 
 def slavePort : Port :=
   { cfg := { acceptable := none, p2p := false, delayLog := 0, announceLog := 0, receiptTimeout := 3, syncLog := 0,
-             masterOnly := false, delayAsymmetry := 5 * 4294967296, minorVersion := 1 },
+             masterOnly := false, delayAsymmetry := 5, minorVersion := 1 },
     id := ⟨7, 1⟩, st := .slave ⟨9, 1⟩ .empty .empty none, fml := { masters := [], interval := 65536000000000, own := ⟨7, 1⟩ },
     multiportDisable := none, annSeq := 0, syncSeq := 0, delaySeq := 0, pdelaySeq := 0, meanDelay := none, peer := .empty }
 
-/-- Sync received at 1000 ns with correction 10 ns, Follow_Up origin 900 ns with correction 2 ns, asymmetry 5 ns:
-raw offset = (1000 − 10) − (900 + 2) − 5 = 83 ns -/
+/-- Sync received at bit pattern 1000·2^16 with correction 10 (2^-16 ns units), Follow_Up origin 0 s 0 ns with
+correction 2, asymmetry 5 (2^-32 ns units): raw offset = (1000 − 10)·2^16 − 2·2^16 − 5 -/
 example :
-    (match slavePort.handleSync { src := ⟨9, 1⟩, seq := 4, flags := { twoStep := true }, correction := 10 * 65536 } ⟨0, 0⟩ (1000 * 4294967296) with
+    (match slavePort.handleSync { src := ⟨9, 1⟩, seq := 4, flags := { twoStep := true }, correction := 10 } ⟨0, 0⟩ (1000 * 65536) with
      | .ok (p1, _) =>
-       (match p1.handleFollowUp { src := ⟨9, 1⟩, seq := 4, correction := 2 * 65536 } ⟨0, 900⟩ with
-        | .ok (_, [.measurement m]) => decide (m.rawSync = some (83 * 4294967296) ∧ m.eventTime = 990 * 4294967296)
+       (match p1.handleFollowUp { src := ⟨9, 1⟩, seq := 4, correction := 2 } ⟨0, 0⟩ with
+        | .ok (_, [.measurement m]) => decide (m.rawSync = some ((1000 - 10) * 65536 - 2 * 65536 - 5) ∧ m.eventTime = 990 * 65536)
         | _ => false)
      | _ => false) = true := by
   decide +kernel
